@@ -399,6 +399,53 @@ theorem alpine2_documented_minimum_incoherent (n : ℕ) (hn : 1 ≤ n) :
   rw [alpine2_closed_form, List.map_replicate, List.prod_replicate, neg_lt_neg_iff]
   exact pow_lt_pow_left₀ alpine2_term_gt (by norm_num) (by omega)
 
+/-! ## Schwefel: a true bound on the documented box, the value at the origin, and why "minimum at 0" is not the origin -/
+
+/-- one term is at most `|v|` -/
+theorem schwefel_term_le (v : ℝ) : v * Real.sin √|v| ≤ |v| := by
+  have h1 : v * Real.sin √|v| ≤ abs (v * Real.sin √|v|) := le_abs_self _
+  rw [abs_mul] at h1
+  have h2 : abs (Real.sin √|v|) ≤ 1 := Real.abs_sin_le_one _
+  have := mul_le_mul_of_nonneg_left h2 (abs_nonneg v)
+  linarith
+
+theorem sum_map_neg' (f : ℝ → ℝ) (l : List ℝ) : (l.map fun v => -f v).sum = -(l.map f).sum := by
+  induction l with
+  | nil => simp
+  | cons a l ih => simp only [List.map_cons, List.sum_cons, ih]; ring
+
+/-- on the documented box `[-500, 500]ⁿ` the function is bounded below, linearly in the dimension
+    (a true bound; the documented minimum value `0` is approached only near `420.9687`) -/
+theorem schwefel_lower_bound_box (x : List ℝ) (hbox : ∀ v ∈ x, |v| ≤ 500) :
+    (418.9829 - 500) * x.length ≤ schwefel x := by
+  rw [schwefel_closed_form]
+  have h := card_mul_le_sum_map (fun v : ℝ => -(v * Real.sin √|v|)) (-500) x
+    (fun v hv => by have := schwefel_term_le v; have := hbox v hv; linarith)
+  rw [sum_map_neg' (fun v => v * Real.sin √|v|)] at h
+  linarith
+
+/-- at the origin the value is `418.9829 · n` -/
+theorem schwefel_at_origin (n : ℕ) : schwefel (List.replicate n (0 : ℝ)) = 418.9829 * n := by
+  rw [schwefel_closed_form, sum_map_replicate]; simp
+
+/-- "has minimum at 0" cannot mean the origin: the point `(π²/4, …, π²/4)` of the documented box has a smaller value -/
+theorem schwefel_origin_not_minimiser (n : ℕ) (hn : 1 ≤ n) :
+    |Real.pi ^ 2 / 4| ≤ 500 ∧
+      schwefel (List.replicate n (Real.pi ^ 2 / 4)) < schwefel (List.replicate n (0 : ℝ)) := by
+  have hpi0 : 0 < Real.pi := Real.pi_pos
+  have hpi4 : Real.pi < 4 := Real.pi_lt_four
+  have hpos : 0 < Real.pi ^ 2 / 4 := by positivity
+  have hsq : √|Real.pi ^ 2 / 4| = Real.pi / 2 := by
+    rw [abs_of_pos hpos]
+    have : Real.pi ^ 2 / 4 = (Real.pi / 2) ^ 2 := by ring
+    rw [this, Real.sqrt_sq (by positivity)]
+  constructor
+  · rw [abs_of_pos hpos]; nlinarith
+  · rw [schwefel_at_origin, schwefel_closed_form, sum_map_replicate, hsq, Real.sin_pi_div_two, List.length_replicate]
+    have hn' : (0 : ℝ) < n := by exact_mod_cast hn
+    have := mul_pos hn' hpos
+    linarith
+
 /-! ## satisfiability: the model evaluates at concrete real points -/
 
 example : sphere [(1 : ℝ), 2] = 5 := by
@@ -471,3 +518,7 @@ end Opy
 #print axioms Opy.deb2_lower_bound
 #print axioms Opy.deb2_at_minimiser
 #print axioms Opy.alpine2_documented_minimum_incoherent
+#print axioms Opy.schwefel_term_le
+#print axioms Opy.schwefel_lower_bound_box
+#print axioms Opy.schwefel_at_origin
+#print axioms Opy.schwefel_origin_not_minimiser
